@@ -2118,3 +2118,16 @@ for _p in ("C10", "C07"):
         context=__i18n_context,
         target_language=target_language
     )""")''')
+
+m("C10", "implicit-text-ignores-explicit-element", ZP,
+  '''        translation = self.implicit_i18n_translate and \\
+            self._implicit_translation[-1]
+''', '''        translation = self.implicit_i18n_translate
+''')
+m("C10", "explicit-element-keeps-implicit-on", ZP,
+  '''        if (I18N, 'translate') in ns:
+            IMPLICIT = False
+        elif (I18N, 'name') in ns:''',
+  '''        if (I18N, 'name') in ns:''')
+m("C10", "implicit-stack-not-popped", ZP,
+  "        self._implicit_translation.pop()\n", "")
